@@ -356,9 +356,13 @@ func c07Cli(c *Ctx) {
 				return
 			}
 			m++
-			if !onlyOrigins(call.Call.Args[0], func(o string) bool { return strings.HasPrefix(o, "param:ctx") }) {
+			ctxArg := call.Call.Args[0]
+			if cal.Signature.Recv() != nil && len(call.Call.Args) > 1 {
+				ctxArg = call.Call.Args[1] // a method ("opt.run(ctx, args)"): the receiver comes first
+			}
+			if !onlyOrigins(ctxArg, func(o string) bool { return strings.HasPrefix(o, "param:ctx") }) {
 				mwrong++
-				c.bad("cmd."+p.Name()+":run-ctx", call.Pos(), "command does not pass its context parameter to %s (origins %v)", cal.Name(), origins(call.Call.Args[0]))
+				c.bad("cmd."+p.Name()+":run-ctx", call.Pos(), "command does not pass its context parameter to %s (origins %v)", cal.Name(), origins(ctxArg))
 			}
 		})
 	}
